@@ -174,6 +174,15 @@ static void check_trim(Ctx& cx, const CaseP& c) {
   if (res.empty()) cnt("trim_result_empty");
   for (size_t i = 0; i + 1 < m; ++i) if (res[i] == res[i + 1]) { cnt(c.closed ? "trim_closed_result_adjacent_duplicate_observed" : "trim_open_result_adjacent_duplicate_observed"); break; }
   cx.rep.outcome(hash_path(F_TRIM, res, c.closed));
+  // the PathD overload (precision 2) on the same integer-valued path scales exactly, so it must return the same vertices
+  // (boards with coordinates beyond 2^40 are outside that overload's range and are skipped)
+  { i64 mx = 0; for (auto& q : in) mx = std::max(mx, std::max(q.x < 0 ? -q.x : q.x, q.y < 0 ? -q.y : q.y));
+    if (mx < ((i64)1 << 40)) {
+      C2::PathD pd; for (auto& q : in) pd.emplace_back((double)q.x, (double)q.y);
+      C2::PathD rd = C2::TrimCollinear(pd, 2, !c.closed); cnt("lib_calls"); cnt("calls_trimD");
+      bool same = rd.size() == res.size(); for (size_t i = 0; same && i < rd.size(); ++i) same = rd[i].x == (double)res[i].x && rd[i].y == (double)res[i].y;
+      if (!same) { std::string t; for (auto& q : rd) { char b[64]; snprintf(b, sizeof b, "%g,%g ", q.x, q.y); t += b; } cx.viol("trimD_differs_from_trim64", "TrimCollinear(PathD, 2, is_open=" + std::to_string(!c.closed) + ") = " + t + " but the Path64 overload gives " + ps(res)); }
+    } }
 
   // clause: subsequence of the input in order (cyclic reading for closed paths)
   bool rotated = false;
